@@ -1550,7 +1550,9 @@ impl Transaction {
                 let slip_index1 = self.from[1].slip_index;
                 let slip_index2 = self.from[2].slip_index;
 
-                if slip_index1 != slip_index0 + 1 || slip_index2 != slip_index1 + 1 {
+                if Some(slip_index1) != slip_index0.checked_add(1)
+                    || Some(slip_index2) != slip_index1.checked_add(1)
+                {
                     error!(
                         "Send-bound TX: input slips slip_index are not sequential ({} / {} / {}).",
                         slip_index0, slip_index1, slip_index2
